@@ -92,6 +92,9 @@ func plans(r *ev.Run) []plan {
 	}
 	if r.Quick() {
 		add(false, "core", 5, 2, true, roleP, roleN)
+		// one more input for the non-proposer with the deterministic Application: the shortest history in which it commits a
+		// height AND had received a next-height message before (6 inputs)
+		ps = append(ps, plan{config{Role: roleN, App: appDet, Alpha: "core", L: 6, Redel: false}, 3})
 		return ps
 	}
 	add(true, "core", 5, 2, true, roleP, roleN)         // the real walstore on crashfs
